@@ -81,6 +81,16 @@ theorem returns_bind_of {P : β → Prop} (m : M α) (f : α → M β)
     exact h a ⟨w, by rw [heq]⟩ w1 b hb
   · simp at hb
 
+/-- …knowing what `m` can return -/
+theorem returns_bind_with {Q : α → Prop} {P : β → Prop} (m : M α) (f : α → M β)
+    (hm : Returns Q m) (h : ∀ a, Q a → Returns P (f a)) : Returns P (m >>= f) := by
+  intro w b hb
+  rw [bind_apply] at hb
+  split at hb
+  · rename_i a e1 w1 heq
+    exact h a (hm w a (by rw [heq])) w1 b hb
+  · simp at hb
+
 theorem returns_tryCatchIf {P : α → Prop} (m : M α) (p : Exc → Bool) (h : Exc → M α)
     (h1 : Returns P m) (h2 : ∀ e, Returns P (h e)) : Returns P (tryCatchIf m p h) := by
   intro w a ha
